@@ -1,7 +1,9 @@
 -------------------------- MODULE GossipValidateTrace --------------------------
 (***************************************************************************)
 (* Trace layer of C04.  One line per case executed on the real code:       *)
-(*   c   the case: flavour, message record, receiver state (GossipValidate)*)
+(*   c   the case: flavour, message record, receiver state, history        *)
+(*       (GossipValidate); the warm-up delivery of a "stale" case is a     *)
+(*       line of its own (judged like every other delivery)               *)
 (*   o   the observed outcome:                                             *)
 (*        v     verdict of the real combined topic validator               *)
 (*              ("accept" | "reject" | "ignore" | "panic" | "timeout")     *)
